@@ -371,4 +371,13 @@ def tier_order(repo: Repo) -> RuleRun:
 
 tier_order.rule_id = "C19.TIER-ORDER"
 
-RULES = [grid_roles, slice_roles, partition, merged_roles, assemble_walk, backport_local, delete_survives, tier_order]
+def no_class_state(repo: Repo) -> RuleRun:
+    """Deleting an operation addressed through a grid removes it from THIS mesh only: the deleted set is per mesh, not a class-level container."""
+    from ..alias import class_state_rule
+
+    return class_state_rule(repo, PROP, "C19.NO-CLASS-STATE")
+
+
+no_class_state.rule_id = "C19.NO-CLASS-STATE"
+
+RULES = [grid_roles, slice_roles, partition, merged_roles, assemble_walk, backport_local, delete_survives, tier_order, no_class_state]
